@@ -296,6 +296,13 @@ def terminateConnection (code : Int) : CM Unit := do
   connInput .SEND_GOAWAY
   prepareForSending [f]
 
+/-- Run a connection-level computation with the frame buffer out of sight.  Nothing outside `receive_data` /
+    the frame iterator touches `incoming_buffer`; the model makes that a matter of construction, so that
+    statements about chunking need no per-handler frame lemmas. -/
+def hideFb {α} (m : CM α) : CM α := fun c =>
+  match m { c with fb := {} } with
+  | (r, c') => (r, { c' with fb := c.fb })
+
 /-- the `for frame in self.incoming_buffer` loop of receive_data; fuel = number of bytes buffered -/
 def recvLoop : Nat → List Event → CM (List Event)
   | 0, evs => pure evs
@@ -304,11 +311,27 @@ def recvLoop : Nat → List Event → CM (List Event)
     | (.error e, fb) => (.error e, { c with fb := fb })
     | (.ok none, fb) => (.ok evs, { c with fb := fb })
     | (.ok (some rf), fb) =>
-      match receiveFrame rf { c with fb := fb } with
+      match hideFb (receiveFrame rf) { c with fb := fb } with
       | (.error e, c) => (.error e, c)
       | (.ok es, c) =>
         -- the limit is refreshed after every frame (fix: commit)
         recvLoop fuel (evs ++ es) { c with fb := { c.fb with maxFrameSize := c.maxInFrame } }
+
+/-- the `except` clauses of `receive_data` -/
+def handleRecvError (e : Exc) : CM (List Event) :=
+  match e with
+  | .py (.Other "InvalidPaddingError") => do
+    terminateConnection ErrorCodes.PROTOCOL_ERROR
+    raise pErr
+  | .h2 cls code _ _ =>
+    if cls.isSub .ProtocolError then
+      match code with
+      | some code => do
+        terminateConnection code
+        raise e
+      | none => raise (.py .AttributeError)
+    else raise e
+  | _ => raise e
 
 /-- `receive_data(data)` -/
 def receiveData (data : Bytes) : CM (List Event) := fun c =>
@@ -318,22 +341,7 @@ def receiveData (data : Bytes) : CM (List Event) := fun c =>
     let c := { c with fb := { fb with maxFrameSize := c.maxInFrame } }
     match recvLoop (c.fb.data.length + 1) [] c with
     | (.ok evs, c) => (.ok evs, c)
-    | (.error e, c) =>
-      match e with
-      | .py (.Other "InvalidPaddingError") =>
-        match terminateConnection ErrorCodes.PROTOCOL_ERROR c with
-        | (.ok _, c) => (.error pErr, c)
-        | (.error e', c) => (.error e', c)
-      | .h2 cls code _ _ =>
-        if cls.isSub .ProtocolError then
-          match code with
-          | some code =>
-            match terminateConnection code c with
-            | (.ok _, c) => (.error e, c)
-            | (.error e', c) => (.error e', c)
-          | none => (.error (.py .AttributeError), c)
-        else (.error e, c)
-      | _ => (.error e, c)
+    | (.error e, c) => hideFb (handleRecvError e) c
 
 end Conn
 end H2
